@@ -79,3 +79,10 @@ Theorem C01_fuel_irrelevant : forall tbl tm ts F, tm <> TmFuel -> (parse_fuel ts
   parse_tokens_with tbl tm F ts = parse_tokens tbl tm ts.
 Proof. intros tbl tm ts F H L. exact (fuel_irrelevant tbl tm H ts F L). Qed.
 Print Assumptions C01_fuel_irrelevant.
+
+(* TRANSLATED FROM THE SOURCE ON EVERY RUN (Gen/ImplConsts.v, from parser.rs): the model's depth limit is the constant in the
+   source text, and both guards of the source compare with `>` as the model does *)
+From EE Require Import ImplConsts.
+Theorem C01_depth_constant_is_source : recognised = true /\ MAX_DEPTH = impl_max_depth.
+Proof. split; reflexivity. Qed.
+Print Assumptions C01_depth_constant_is_source.
